@@ -315,6 +315,15 @@ func c08Classify(p c08Prog, variants []c08Obs, inproc []string, pristine string)
 		if any(func(o c08Obs) bool { return strings.Contains(o.Parse, "incompatible types") }) {
 			return "parseMapLiteral-combineTypes-order", "Parse crashes (wrapAny internal error) or accepts depending on the order in which parseMapLiteral hands the value types of mapLit.Pairs to combineTypes"
 		}
+		samePos := true
+		for _, v := range variants[1:] {
+			if c08ErrPositions(v.Parse) != c08ErrPositions(variants[0].Parse) {
+				samePos = false
+			}
+		}
+		if samePos && !any(func(o c08Obs) bool { return strings.HasPrefix(o.Parse, "GOPANIC") }) {
+			return "parse-error-text-differs", "the same program is rejected at the same positions but the TEXT of a parse error differs between repetitions (a message built while ranging over a Go map: p.funcs, scope.vars, EventHandlers, …)"
+		}
 		return "parse-result-differs", "parse errors differ between repetitions"
 	case differ["format"]:
 		return "format-differs", "Format() output differs between repetitions"
@@ -1071,6 +1080,378 @@ func genMalformed(rng *rand.Rand, base func(*rand.Rand) c08Prog) c08Prog {
 	return c08Prog{Family: "malformed", Src: src, Input: p.Input, Events: p.Events}
 }
 
+
+var reErrPos = regexp.MustCompile(`^line \d+ column \d+`)
+
+// c08ErrPositions projects a parser.Errors text onto the positions of its lines.
+func c08ErrPositions(s string) string {
+	var l []string
+	for _, line := range strings.Split(s, "\n") {
+		l = append(l, reErrPos.FindString(line))
+	}
+	return strings.Join(l, ";")
+}
+
+// ---------- rejected programs with several candidates per diagnostic ----------
+
+var c08Reserved = map[string]bool{"num": true, "string": true, "bool": true, "any": true, "true": true, "false": true, "and": true, "or": true,
+	"if": true, "else": true, "func": true, "return": true, "on": true, "for": true, "range": true, "while": true, "break": true, "end": true}
+
+var c08FuncStems = []string{"draw", "plot", "show", "calc", "step", "tick", "area", "grow", "spin", "mark", "count", "paint", "shape", "reset", "add", "put", "bounce", "update"}
+var c08VarStems = []string{"total", "speed", "score", "angle", "left", "size", "pos", "radius", "names", "lives"}
+
+const c08Letters = "aeioubcdklmnprstxyz"
+
+// c08Near: the notions of "similar name" a diagnostic may use: equal up to case,
+// same length and one character different, one character inserted / deleted,
+// two neighbours swapped.
+func c08Near(a, b string) bool {
+	if a == b {
+		return false
+	}
+	if strings.EqualFold(a, b) {
+		return true
+	}
+	if len(a) == len(b) {
+		d, first := 0, -1
+		for i := 0; i < len(a); i++ {
+			if a[i] != b[i] {
+				if d == 0 {
+					first = i
+				}
+				d++
+			}
+		}
+		if d == 1 {
+			return true
+		}
+		return d == 2 && first+1 < len(a) && a[first] == b[first+1] && a[first+1] == b[first] // transposition
+	}
+	if len(a) > len(b) {
+		a, b = b, a
+	}
+	if len(b)-len(a) != 1 {
+		return false
+	}
+	for i := 0; i < len(b); i++ {
+		if b[:i]+b[i+1:] == a {
+			return true
+		}
+	}
+	return false
+}
+
+func c08Subst(s string, i int, c byte) string { return s[:i] + string(c) + s[i+1:] }
+
+// c08Mutations of a name: every single-character substitution / deletion /
+// doubling / swap, plus the case variants.
+func c08Mutations(s string) []string {
+	out := []string{strings.ToUpper(s), strings.ToUpper(s[:1]) + s[1:], s[:len(s)-1] + strings.ToUpper(s[len(s)-1:])}
+	for i := 0; i < len(s); i++ {
+		for j := 0; j < len(c08Letters); j++ {
+			if c08Letters[j] != s[i] {
+				out = append(out, c08Subst(s, i, c08Letters[j]))
+			}
+		}
+		if len(s) > 3 {
+			out = append(out, s[:i]+s[i+1:])
+		}
+		out = append(out, s[:i]+s[i:i+1]+s[i:])
+		if i+1 < len(s) && s[i] != s[i+1] {
+			out = append(out, s[:i]+s[i+1:i+2]+s[i:i+1]+s[i+2:])
+		}
+	}
+	return out
+}
+
+func c08BuiltinFuncNames() []string {
+	var l []string
+	for n := range evaluator.BuiltinDecls().Funcs {
+		l = append(l, n)
+	}
+	sort.Strings(l)
+	return l
+}
+
+var c08BuiltinTyposCache []string
+
+// c08BuiltinTypos: undeclared names that are near (c08Near) at least TWO
+// built-in functions (mix: min max; den: len del; tent: text test; …), computed
+// from the real table so that new built-ins take part.
+func c08BuiltinTypos() []string {
+	if c08BuiltinTyposCache != nil {
+		return c08BuiltinTyposCache
+	}
+	decls := evaluator.BuiltinDecls()
+	names := c08BuiltinFuncNames()
+	taken := map[string]bool{}
+	for _, n := range names {
+		taken[n] = true
+	}
+	for n := range decls.Globals {
+		taken[n] = true
+	}
+	for n := range decls.EventHandlers {
+		taken[n] = true
+	}
+	seen := map[string]bool{}
+	for _, b := range names {
+		for _, c := range c08Mutations(b) {
+			if seen[c] || taken[c] || c08Reserved[c] || len(c) < 3 {
+				continue
+			}
+			seen[c] = true
+			k, sameLen := 0, 0
+			for _, o := range names {
+				if c08Near(c, o) {
+					k++
+					if len(o) == len(c) {
+						sameLen++
+					}
+				}
+			}
+			if k >= 2 && sameLen >= 2 {
+				c08BuiltinTyposCache = append(c08BuiltinTyposCache, c)
+			}
+		}
+	}
+	sort.Strings(c08BuiltinTyposCache)
+	return c08BuiltinTyposCache
+}
+
+// c08NearSet: k distinct names near `unknown` (and `unknown` itself is not among
+// them), none reserved or in `taken`.
+func c08NearSet(rng *rand.Rand, stem string, k int, taken map[string]bool) (names []string, unknown string) {
+	mode := rng.Intn(4)
+	var cands []string
+	switch mode {
+	case 0: // all differ from the unknown name at ONE common position
+		pos := rng.Intn(len(stem))
+		for _, j := range rng.Perm(len(c08Letters)) {
+			cands = append(cands, c08Subst(stem, pos, c08Letters[j]))
+		}
+		unknown, cands = cands[0], cands[1:]
+	case 1: // case variants
+		unknown = strings.ToUpper(stem)
+		cands = []string{stem, strings.ToUpper(stem[:1]) + stem[1:], stem[:1] + strings.ToUpper(stem[1:2]) + stem[2:], stem[:len(stem)-1] + strings.ToUpper(stem[len(stem)-1:]), strings.ToUpper(stem[:2]) + stem[2:]}
+		if rng.Intn(2) == 0 {
+			unknown, cands[0] = stem, unknown
+		}
+		rng.Shuffle(len(cands), func(i, j int) { cands[i], cands[j] = cands[j], cands[i] })
+	case 2: // each differs from the unknown name (the stem) at a position of its own
+		unknown = stem
+		for _, pos := range rng.Perm(len(stem)) {
+			cands = append(cands, c08Subst(stem, pos, c08Letters[rng.Intn(len(c08Letters))]))
+		}
+	default: // any mixture of substitution / deletion / doubling / swap / case
+		unknown = stem
+		m := c08Mutations(stem)
+		for _, j := range rng.Perm(len(m))[:12] {
+			cands = append(cands, m[j])
+		}
+	}
+	for _, c := range cands {
+		if len(names) == k {
+			break
+		}
+		if c == unknown || taken[c] || c08Reserved[c] || !c08Near(c, unknown) {
+			continue
+		}
+		taken[c] = true
+		names = append(names, c)
+	}
+	taken[unknown] = true
+	return names, unknown
+}
+
+// genRejected: REJECTED programs in which every diagnostic that could be chosen
+// or worded by looking through a table (declared functions incl. built-ins,
+// variables of the scope, event handlers, type names) has at least 2-3
+// candidates: calls of undeclared functions whose names are near >= 2 declared
+// functions or built-ins — in statement position, parenthesised in expressions,
+// in conditions, in map literals, inside function / handler / block bodies —
+// uses of and assignments to undeclared variables near >= 3 declared ones,
+// unknown handlers and types, wrong argument counts / types for near-named
+// functions, redeclarations. The parse error TEXTS are compared byte for byte.
+func genRejected(rng *rand.Rand) c08Prog {
+	decls := evaluator.BuiltinDecls()
+	taken := map[string]bool{}
+	for n := range decls.Funcs {
+		taken[n] = true
+	}
+	for n := range decls.Globals {
+		taken[n] = true
+	}
+	for n := range decls.EventHandlers {
+		taken[n] = true
+	}
+	var b strings.Builder
+	// functions
+	var funcs []string
+	var unkF string
+	builtinTypo := rng.Intn(3) == 0
+	if typos := c08BuiltinTypos(); builtinTypo && len(typos) > 0 {
+		unkF = typos[rng.Intn(len(typos))]
+		taken[unkF] = true
+		// 0-2 user functions near the same unknown name, next to the >= 2 built-ins
+		m := c08Mutations(unkF)
+		for _, j := range rng.Perm(len(m))[:rng.Intn(3)] {
+			if c := m[j]; !taken[c] && !c08Reserved[c] && c08Near(c, unkF) && len(c) >= 2 {
+				taken[c] = true
+				funcs = append(funcs, c)
+			}
+		}
+	} else {
+		builtinTypo = false
+		funcs, unkF = c08NearSet(rng, c08FuncStems[rng.Intn(len(c08FuncStems))], 2+rng.Intn(4), taken)
+	}
+	sig := map[string]int{}
+	rng.Shuffle(len(funcs), func(i, j int) { funcs[i], funcs[j] = funcs[j], funcs[i] })
+	for _, f := range funcs {
+		switch k := rng.Intn(4); k {
+		case 0:
+			fmt.Fprintf(&b, "func %s\n    print \"%s\"\nend\n", f, f)
+		case 1:
+			fmt.Fprintf(&b, "func %s a:num b:num\n    print \"%s\" a b\nend\n", f, f)
+		case 2:
+			fmt.Fprintf(&b, "func %s:num a:num\n    return a * 2\nend\n", f)
+		default:
+			fmt.Fprintf(&b, "func %s:string s:string n:num\n    return s + (sprint n)\nend\n", f)
+		}
+		sig[f] = len(sig)
+	}
+	// variables
+	vars, unkV := c08NearSet(rng, c08VarStems[rng.Intn(len(c08VarStems))], 3+rng.Intn(3), taken)
+	unusedVars := rng.Intn(4) == 0
+	for i, v := range vars {
+		switch i % 3 {
+		case 0:
+			fmt.Fprintf(&b, "%s := %d\n", v, i+1)
+		case 1:
+			fmt.Fprintf(&b, "%s := [%d %d]\n", v, i, i+1)
+		default:
+			fmt.Fprintf(&b, "%s := {k:%d}\n", v, i)
+		}
+	}
+	if !unusedVars {
+		b.WriteString("print " + strings.Join(vars, " ") + "\n")
+	}
+	// handlers
+	hs := [][2]string{{"down", "on down x:num y:num\n    print \"down\" x y\nend\n"}, {"up", "on up\n    print \"up\"\nend\n"}, {"move", "on move x:num y:num\n    print x y\nend\n"},
+		{"key", "on key k:string\n    print k\nend\n"}, {"input", "on input id:string val:string\n    print id val\nend\n"}, {"animate", "on animate t:num\n    print t\nend\n"}}
+	nh := 2 + rng.Intn(4)
+	hperm := rng.Perm(len(hs))
+	for _, i := range hperm[:nh] {
+		b.WriteString(hs[i][1])
+	}
+	// the offending statements
+	anyFunc := func() string {
+		if len(funcs) > 0 && rng.Intn(3) > 0 {
+			return funcs[rng.Intn(len(funcs))]
+		}
+		bn := c08BuiltinFuncNames()
+		return bn[rng.Intn(len(bn))]
+	}
+	args := []string{"", " 1", " 1 2", " \"a\"", " 1 2 3", " [1] {}", " true", " (1 + 2) \"s\""}
+	ut := []string{"nun", "strinq", "bol", "Num", "String", "ani", "number", "[]nun", "{}bol"}
+	kinds := 0
+	tmp := 0
+	stmt := func() string {
+		tmp++
+		a := args[rng.Intn(len(args))]
+		v := vars[rng.Intn(len(vars))]
+		k := rng.Intn(24)
+		if k == 23 && rng.Intn(4) > 0 { // errors in a function signature end the parse before the bodies are looked at: keep them rare
+			k = rng.Intn(3)
+		}
+		if k < 3 || k == 8 {
+			kinds |= 1 // a call in statement position
+		}
+		switch k {
+		case 0, 1:
+			return unkF + a + "\n"
+		case 2:
+			return unkF + "\n"
+		case 3:
+			return "print (" + unkF + a + ")\n"
+		case 4:
+			return fmt.Sprintf("r%d := (%s%s)\nprint r%d\n", tmp, unkF, a, tmp)
+		case 5:
+			return "if (" + unkF + a + ") > 2\n    print 1\nend\n"
+		case 6:
+			return fmt.Sprintf("mm%d := {a:(%s 1) b:(%s 2) c:(%s 3) d:4}\nprint mm%d\n", tmp, unkF, unkF, unkF, tmp)
+		case 7:
+			return "print 1 (len [(" + unkF + a + ")]) \"x\"\n"
+		case 8:
+			return "while (" + unkF + ")\n    " + unkF + a + "\nend\n"
+		case 9:
+			return "print " + unkV + "\n"
+		case 10:
+			return unkV + " = 3\n"
+		case 11:
+			return unkV + []string{"[0] = 1\n", ".k = 1\n", "[\"k\"] = 2\n"}[rng.Intn(3)]
+		case 12:
+			return fmt.Sprintf("r%d := %s + 1\nprint r%d\n", tmp, unkV, tmp)
+		case 13:
+			return "print " + unkV + "[0] " + unkV + ".k (" + unkV + ")\n"
+		case 14:
+			return anyFunc() + " 1 2 3 4 5 6\n"
+		case 15:
+			return anyFunc() + " {} [[true]]\n"
+		case 16:
+			return fmt.Sprintf("q%d:%s\nprint q%d\n", tmp, ut[rng.Intn(len(ut))], tmp)
+		case 17:
+			f := anyFunc()
+			return fmt.Sprintf("func %s\n    print \"again\"\nend\n", f)
+		case 18:
+			return fmt.Sprintf("%s := %s\n", v, []string{"1", "\"s\"", "[1]", "{}"}[rng.Intn(4)])
+		case 19:
+			h := hs[hperm[rng.Intn(nh)]][0]
+			m := c08Mutations(h)
+			return "on " + m[rng.Intn(len(m))] + "\n    print \"typo\"\nend\n"
+		case 20:
+			return hs[hperm[rng.Intn(nh)]][1]
+		case 21:
+			return "print " + v + ".x." + unkV + " (" + anyFunc() + ")\n"
+		case 22:
+			return []string{"return 5\n", "break\n", "end\n", "else\n"}[rng.Intn(4)]
+		default:
+			return fmt.Sprintf("func w%d:%s a:%s\n    return %s\nend\n", tmp, ut[rng.Intn(len(ut))], ut[rng.Intn(len(ut))], unkV)
+		}
+	}
+	ns := 2 + rng.Intn(5)
+	for i := 0; i < ns; i++ {
+		s := stmt()
+		if i == ns-1 && kinds&1 == 0 && rng.Intn(4) > 0 { // the unknown call in statement position is in most programs
+			s = unkF + args[rng.Intn(len(args))] + "\n" + s
+		}
+		isDecl := strings.HasPrefix(s, "func ") || strings.HasPrefix(s, "on ")
+		w := rng.Intn(7)
+		if isDecl || w > 4 {
+			b.WriteString(s)
+			continue
+		}
+		ind := "    " + strings.ReplaceAll(strings.TrimSuffix(s, "\n"), "\n", "\n    ") + "\n"
+		switch w {
+		case 0:
+			b.WriteString("if true\n" + ind + "end\n")
+		case 1:
+			fmt.Fprintf(&b, "for i%d := range 2\n    print i%d\n%send\n", tmp, tmp, ind)
+		case 2:
+			fmt.Fprintf(&b, "func body%d n:num\n    print n\n%send\n", tmp, ind)
+		case 3:
+			b.WriteString("if false\n    print 0\nelse\n    while true\n" + strings.ReplaceAll(ind, "    ", "        ") + "        break\n    end\nend\n")
+		default:
+			fmt.Fprintf(&b, "on %s\n%send\n", hs[hperm[len(hs)-1]][0], ind)
+		}
+	}
+	fam := "rejected-near-names:user-functions"
+	if builtinTypo {
+		fam = "rejected-near-names:builtins"
+	}
+	return c08Prog{Family: fam, Src: b.String(), N: len(funcs) + len(vars) + nh}
+}
+
 func genC08(rng *rand.Rand) c08Prog {
 	switch k := rng.Intn(100); {
 	case k < 16:
@@ -1191,14 +1572,14 @@ func c08CheckBatch(cfg Config, r *Result, model *Model, progs []c08Prog, inproc 
 		for c := range children {
 			add(children[c][i], fmt.Sprintf("fresh process #%d", c))
 		}
-		r.Count(p.Src, p.N >= 4 || p.Family == "valid-mixed" || p.Family == "malformed")
+		r.Count(p.Src, p.N >= 4 || p.Family == "valid-mixed" || p.Family == "malformed" || strings.HasPrefix(p.Family, "rejected-"))
 		r.Dist("family:" + p.Family)
 		r.Dist("class:" + variants[0].Class)
 		if len(namesOrders) > 1 {
 			stats["name-list-order-varied"]++
 		}
 		if variants[0].Class == "parse-error" && !strings.HasPrefix(p.Family, "unused-vars") && p.Family != "malformed" &&
-			p.Family != "corpus-validateScope" && p.Family != "corpus-design-7-6" && p.Family != "corpus-map-literal-errors" {
+			p.Family != "corpus-validateScope" && !strings.HasPrefix(p.Family, "rejected-") && p.Family != "corpus-design-7-6" && p.Family != "corpus-map-literal-errors" {
 			r.Violate(Violation{Kind: "correspondence", Key: "generator-invalid-program:" + p.Family,
 				Detail: "a program of a family that is meant to be accepted by the parser was rejected (harness generator out of date?): " + variants[0].Parse, Input: p})
 		}
@@ -1278,7 +1659,7 @@ func c08CheckBatch(cfg Config, r *Result, model *Model, progs []c08Prog, inproc 
 }
 
 func runC08(cfg Config, r *Result) {
-	r.Rule = "programs from 11 families biased to expose Go map order (4-8 unused variables per scope; map literals with 4-8 values of which most print; font with 3-8 properties of which several are bad; map literals mixing literal/variable/empty composite types; == on maps incl. an ill-typed value; maps printed/compared/tested/copied/iterated; programs that print/compare/index err, errmsg, pi before any conversion and end with a failing conversion / a success after a failure / an assignment to the globals (with handlers and test in between), each also run alone in a pristine process; arrays (also nested, also of any) holding maps with 4-8 keys deep-copied by array repetition and then printed/ranged/compared/asserted/mutated; 3-6 event handlers with 8 delivered events; mixed valid programs with seeded rand, read, drawing → SVG; token-level mutations of all of these); each program is parsed/formatted/run/rendered 8x in-process and 3x in fresh processes and all observables (parse error text and order, Format(), class, error text, platform trace, SVG+stdout of pkg/cli, name sets) must be identical; non-trivial = order-relevant map with >= 4 entries, or a mixed/malformed program; distinct = distinct program text."
+	r.Rule = "programs from 12 families biased to expose Go map order (4-8 unused variables per scope; map literals with 4-8 values of which most print; font with 3-8 properties of which several are bad; map literals mixing literal/variable/empty composite types; == on maps incl. an ill-typed value; maps printed/compared/tested/copied/iterated; programs that print/compare/index err, errmsg, pi before any conversion and end with a failing conversion / a success after a failure / an assignment to the globals (with handlers and test in between), each also run alone in a pristine process; arrays (also nested, also of any) holding maps with 4-8 keys deep-copied by array repetition and then printed/ranged/compared/asserted/mutated; 3-6 event handlers with 8 delivered events; mixed valid programs with seeded rand, read, drawing → SVG; token-level mutations of all of these; REJECTED programs with 2-6 near-named declared functions / built-ins, 3-5 near-named variables and 2-5 handlers plus 2-6 offending statements — calls of an undeclared function near >= 2 of them in statement position, parenthesised in expressions, conditions and map literals, inside if/for/while/func/handler bodies, undeclared variables read / assigned / indexed, mistyped handlers and types, wrong argument counts and types, redeclarations); each program is parsed/formatted/run/rendered 8x in-process and 3x in fresh processes and all observables (parse error text and order, Format(), class, error text, platform trace, SVG+stdout of pkg/cli, name sets) must be identical; non-trivial = order-relevant map with >= 4 entries, or a mixed/malformed program; distinct = distinct program text."
 	if cfg.Replay != "" {
 		c08Replay(cfg, r)
 		return
@@ -1339,6 +1720,21 @@ func runC08(cfg Config, r *Result) {
 			progs[i] = genC08(cfg.Rng)
 		}
 		c08CheckBatch(cfg, r, model, progs, c08InProc, stats)
+	}
+
+	// 2b. rejected programs with >= 2-3 candidates per diagnostic (error TEXTS compared)
+	if nr := cfg.N(90, 2400); nr > 0 {
+		for done := 0; done < nr; done += batch {
+			m := batch
+			if nr-done < m {
+				m = nr - done
+			}
+			progs := make([]c08Prog, m)
+			for i := range progs {
+				progs[i] = genRejected(cfg.Rng)
+			}
+			c08CheckBatch(cfg, r, model, progs, c08InProc, stats)
+		}
 	}
 
 	// 3. (the exact combineTypes comparison was dropped with /repo 0e214ac: see coq/Perm.v)
